@@ -59,5 +59,5 @@ PROPS = {
     'C17': dict(families=[_chunk], trusted_base=[PY]),
     'C18': dict(families=[_alias], trusted_base=[PY, 'value-level model: sharing is excluded by the snapshot correspondence after every operation']),
     'C19': dict(families=[_attrs, _alias], trusted_base=[PY]),
-    'C20': dict(families=[_lex] if _lex else [], trusted_base=[PY, 'pygments RegexLexer engine, bygroups, using behave as Lexer.v models them; JsonLexer/DiffLexer are oracles assumed lossless']),
+    'C20': dict(families=[_lex] if _lex else [], extra_props=['C20_writer'], trusted_base=[PY, 'pygments RegexLexer engine, bygroups, using behave as Lexer.v models them; JsonLexer/DiffLexer are oracles assumed lossless']),
 }
